@@ -279,11 +279,16 @@ func (c *c14Totp) memCounter(user string) int64 {
 
 // ... and as written to the profile in the primary database
 func (c *c14Totp) persistedCounter(t *testing.T, user string) int64 {
-	profile, _, fromCache, err := c.env.state.LoadUserProfile(user)
-	if err != nil || fromCache {
-		t.Fatalf("reading the profile of %s from the primary: fromCache=%v err=%v", user, fromCache, err)
+	for try := 0; ; try++ {
+		profile, _, fromCache, err := c.env.state.LoadUserProfile(user)
+		if err == nil && !fromCache {
+			return profile.LastSuccessfullTOTPCounter
+		}
+		if try >= 5 { // (a primary that needs more than remoteDBQueryTimeout = 2 s, six times in a row)
+			t.Fatalf("reading the profile of %s from the primary: fromCache=%v err=%v", user, fromCache, err)
+		}
+		time.Sleep(50 * time.Millisecond)
 	}
-	return profile.LastSuccessfullTOTPCounter
 }
 
 // the `Cached` request modifier (Model/TotpLimit.v rop, as harness/kmd/c05.go does it): the cache database is
